@@ -3,7 +3,7 @@
    control code of Tree / HtmlToAst / Element breaks. *)
 From Coq Require Import List NArith Bool Arith Lia.
 From MV Require Import Base.PyStr Base.Res Html.HtmlTypes Gen.Html Html.HtmlModel Html.SrcPrims Gen.HtmlSrc
-  Html.HtmlStore Html.HtmlInv Html.HtmlOps.
+  Html.HtmlStore Html.HtmlInv Html.HtmlOps Html.HtmlIso Html.HtmlStripRec.
 Import ListNotations.
 Local Open Scope nat_scope.
 
@@ -511,4 +511,25 @@ Proof.
     { intros j c k Hj Hn _. apply nth_error_Some_lt in Hn. lia. }
     destruct (strip_inplace_frame _ _ _ _ _ (length st) Es) as [[_ S] _]; [lia|apply Hc; auto|].
     intros j Hj. rewrite S by exact Hj. apply extends_nth; auto.
+Qed.
+
+(* the whole result of the regenerated strip(inplace=False, recurse=True), for every fuel *)
+Theorem strip_rec_exact_src (name : str) (evs : list event) (t : tree) (i : nat) (fuel : nat) (st' : store) (n : nat) :
+  build_src (init_tree name) evs = Ok t ->
+  let st := t_cells t in
+  strip_src fuel st i false true = Ok (n, st') ->
+  n = length st
+  /\ (forall a, a < length st -> nth_error st' a = nth_error st a)
+  /\ exists g, stripped_of g st' i n /\ forall h, render h st' n = render_stripped h st' i.
+Proof.
+  intros Hb st H.
+  destruct (copy_strip_pure_src st i fuel) as [_ Hp]. destruct (Hp true st' n H) as [Hn Hpure].
+  split; [exact Hn|]. split; [exact Hpure|].
+  rewrite build_src_eq in Hb by apply binv_init.
+  destruct (built_cells_ok _ _ _ Hb) as [Hok Hvc].
+  destruct fuel as [|f]; [discriminate|]. rewrite strip_src_eq in H. unfold strip_ref in H.
+  destruct (deepcopy f st i) as [[s1 m]|] eqn:Ed; [|discriminate]. cbn [bind fst snd] in H.
+  destruct (strip_inplace (S f) s1 m true) as [s2|] eqn:Es; [|discriminate]. cbn [bind] in H. inversion H; subst m s2.
+  destruct (strip_rec_general _ _ _ _ _ _ _ Hvc Hok Ed Es) as [_ R].
+  exists f. split; [exact R|]. intro h. eapply stripped_render; exact R.
 Qed.
